@@ -21,6 +21,9 @@ CHECKS = {
  'C05': dict(cat=MC, technique='TLA+ HCM specification with abstract notch law (3 exact integer laws) as the independent implementation; TLC exhaustive; all recorder columns and strain lists of every state compared exactly with FKMNonlinearDetector; batch-vs-alone and negation relations; recorded runs validated by Trace_HCM.tla',
    text='The specification is an independent implementation of the HCM procedure (cases a-c, Memory 1-3, running extremes) parametrised by the law; for three exact laws every load sequence of the bounded instance is replayed with the same law injected and every column compared exactly; batches of proportional points (incl. arbitrary node ids / load-step labels) are compared with each point alone.',
    note='laws are exact integer functions injected through the constructor; real laws are exercised via C10; raw chunked process() on multi-point input is outside the property (observation O1 in DESIGN)', ref='5 C05'),
+ 'C07': dict(cat=MC, technique='TLA+ transcription of the class selection of Binned (searchsorted-left, +1 row, range guard; scalar, one-table and per-point paths) vs the definition "least class whose upper edge is >= |load|"; TLC enumerates the whole lattice; every state looked up in real Binned objects',
+   text='The case analysis is finite per (bins, branch); TLC proves coded class choice = definition (and the consequences: error iff above max, never under-estimates, monotone, < 1 class) on the lattice of loads on/between/beyond class edges, and each lattice state is one implementation test: exact laws compared exactly, real laws against the wrapped law evaluated on the table edges; per-point tables vs each point alone; look-ups must not depend on call history.',
+   note='edges as doubles taken from the table; solver accuracy of the wrapped laws is C06 (not claimed); known finding C07-onebin (number_of_bins=1 raises)', ref='5 C07'),
 }
 PENDING = 'check not built yet in this round (planned, see DESIGN.md section 5)'
 NA = {
